@@ -306,7 +306,7 @@ def e2e_worker(task: Tuple) -> Dict[str, Any]:
                         out["findings"].append(("quantity-unparsable", code, str(q), ""))
         elif kind == "pue" and e in (1, 2) and cls == "identical":
             # quantities and alternative spellings on the units that do round-trip
-            for m in (5, 5.5, -3, 1e21):
+            for m in (5, 5.5, -3, 1e21, 2 ** 53 + 1, -(10 ** 23) - 7, 12345678901234567891):
                 q = m * u
                 try:
                     back = Quantity.parse(str(q))
